@@ -570,6 +570,9 @@ type Action struct {
 	// an aggregating fifo.Group produces); "quoted" a text with double quotes,
 	// a backslash and a tab.
 	ErrKind string
+	// HijackErr: the hijacking modifier call also returns an error (what a
+	// hijacker does when its peer goes away mid-conversation).
+	HijackErr bool
 	// Unflushed: a hijacking modifier leaves unflushed bytes in the handed-over bufio.Writer.
 	Unflushed bool
 	// API marks the exchange as a request to the proxy's API (Context.APIRequest)
@@ -814,6 +817,9 @@ func (rc *Recorder) modifyRequest(req *http.Request, gen int) error {
 		}
 		if a.HijackReq {
 			rc.hijack(c, a, "req")
+			if a.HijackErr {
+				err = errors.New("vh-hijacker-peer-gone-" + c.XID)
+			}
 		}
 	}
 	rc.exit(c)
@@ -836,6 +842,9 @@ func (rc *Recorder) modifyResponse(res *http.Response, gen int) error {
 		}
 		if a.HijackRes {
 			rc.hijack(c, a, "res")
+			if a.HijackErr {
+				err = errors.New("vh-hijacker-peer-gone-" + c.XID)
+			}
 		}
 	}
 	rc.exit(c)
